@@ -39,7 +39,7 @@ fn gr_load_states() {
         if i < n {
             let mut st: OrSWotSet<NUM_SOURCES> = OrSWotSet::default();
             st.ops.push(ops[i]);
-            v.push((Cow::Borrowed(KS_NAMES[i]), st));
+            v.push((Cow::Borrowed(KS_STRS[i]), st));
         }
         i += 1;
     }
@@ -51,17 +51,17 @@ fn gr_load_states() {
         if i < n {
             let mut found = 0;
             for sp in spawned.iter() {
-                if sp.name == KS_NAMES[i].vkey() {
+                if sp.name == KS_STRS[i].vkey() {
                     found += 1;
                     assert!(sp.state.ops.len() == 1 && sp.state.ops[0] == ops[i], "the actor gets exactly the state built for its keyspace");
-                    let bound = g.group.read().get(KS_NAMES[i]).map(|m| m.id);
+                    let bound = g.group.read().get(KS_STRS[i]).map(|m| m.id);
                     assert!(bound == Some(sp.id), "the keyspace name is bound to that actor");
-                    assert!(g.keyspace_timestamps.read().get(KS_NAMES[i]).is_some(), "and has a change counter");
+                    assert!(g.keyspace_timestamps.read().get(KS_STRS[i]).is_some(), "and has a change counter");
                 }
             }
             assert!(found == 1);
         } else {
-            assert!(g.group.read().get(KS_NAMES[i]).is_none());
+            assert!(g.group.read().get(KS_STRS[i]).is_none());
         }
         i += 1;
     }
